@@ -394,7 +394,12 @@ class Interp:
 
         if self.bad_index:
             return []  # (the reference model of compose does not cover programs that index out of range)
-        exp = compose_expect(self.P, self.M, op["inputs"], op["outputs"], [dec(v) for v in op["vals"]], inst.pre, single=op.get("single", False))
+        try:
+            exp = compose_expect(self.P, self.M, op["inputs"], op["outputs"], [dec(v) for v in op["vals"]], inst.pre, single=op.get("single", False))
+        except (TypeError, KeyError, IndexError, prog.RefError):
+            # the supplied input value cannot be indexed the way a consumer indexes it: plain Python raises as well
+            self.stats["compose-input-not-indexable"] += 1
+            return []
         vals_ = [dec(v) for v in op["vals"]]
         omit = False
         if op.get("omit") and not exp.error and op["inputs"] and op["inputs"][-1] in self.M.sites:
